@@ -251,7 +251,7 @@ func runC07(t *testing.T, r *kit.Run) {
 			model = append(model, versionless(id))
 		}
 	} else {
-		f := pbfwire.Gen(tp, pbfwire.Opts{MinBlocks: 40, MaxBlocks: 80, MaxGroups: 2, MinElems: 10, MaxElems: 30, Procs: c.procs, AlwaysHeader: true})
+		f := pbfwire.Gen(tp, pbfwire.Opts{MinBlocks: 40, MaxBlocks: 80, MaxGroups: 2, MinElems: 10, MaxElems: 30, Procs: c.procs, HeaderlessOneIn: 4})
 		data = f.Data
 		blocks = f.Blocks
 		for _, o := range f.Objects() {
@@ -283,6 +283,29 @@ func runC07(t *testing.T, r *kit.Run) {
 			}
 		}
 		damaged = d.name
+		if c.mode == 2 {
+			c.mode = tp.Draw(2)
+		}
+	}
+	// 1 PBF history in 12 cannot even start: the input is empty or ends inside its first block. Scan is false at once,
+	// and Close (e.g. a deferred one) must still return
+	if !c.xml && damaged == "" && tp.Chance(1, 12) {
+		firstEnd := len(data)
+		if len(blocks) > 0 {
+			firstEnd = blocks[0].Offset
+			if firstEnd == 0 {
+				firstEnd = blocks[0].End
+			}
+		}
+		cutAt := tp.Draw(firstEnd)
+		data = data[:cutAt]
+		model = nil
+		blocks = nil
+		damaged = "input-ends-inside-first-block"
+		if cutAt == 0 {
+			damaged = "" // an empty input is a complete (empty) scan
+			r.Out.Probe("empty-input")
+		}
 		if c.mode == 2 {
 			c.mode = tp.Draw(2)
 		}
@@ -371,6 +394,9 @@ func runC07(t *testing.T, r *kit.Run) {
 	}
 	if c.procs > 10 && !c.xml {
 		r.Out.Probe("unbuffered-channels")
+	}
+	if !c.xml && len(blocks) > 0 && blocks[0].Offset == 0 {
+		r.Out.Probe("stream-starts-with-a-data-block")
 	}
 	delivered := 0
 	for _, cl := range res.calls {
